@@ -214,7 +214,7 @@ PROPS = {
     "C14": {
         "verus": ["vrf_labels", "vrf_labels_seq",
                   ("azks_walk", ["Azks.get_append_only_proof_helper", "Azks.vx_task1", "lemma_walk_unfold", "lemma_child_unfold", "lemma_multiset_algebra", "lemma_concat_multiset", "lemma_push_multiset", "lemma_empty_multiset"]),
-                  ("directory_lookup", ["Directory.retrieve_azks"]), "azks_insert"],
+                  ("directory_lookup", ["Directory.retrieve_azks"]), "azks_insert", "readonly_wrapper"],
         "search": True,
         "always_search": True,
         "bounded_search": [{"obligation": "replay/c14#variants",
@@ -222,7 +222,7 @@ PROPS = {
                                      "instance re-created over the same storage before every call} x {single-threaded, 4-worker runtime} x both configurations: identical epoch hashes and identical verified lookup results"}],
         "scope": "partial (the pieces of 'results do not depend on parallelism' that are properties of ONE function): the two compile variants of VRFKeyStorage::get_node_labels - tasks in a JoinSet joined in completion order "
                  "(feature parallel_vrf) and the plain loop - satisfy the SAME contract: every input tuple is paired with the VRF label of that tuple; the audit walk returns walk_spec of the stored tree (as multisets) "
-                 "through its sequential branch and through its spawned-task branch alike; the parallel-level countdown of the recursive insertion cannot underflow for any level count (also 0 and 1) and both branches obey the same write discipline; an instance takes the epoch record through its cache like its tree nodes (never the epoch from storage and the tree from the cache). "
+                 "through its sequential branch and through its spawned-task branch alike; the parallel-level countdown of the recursive insertion cannot underflow for any level count (also 0 and 1) and both branches obey the same write discipline; an instance takes the epoch record through its cache like its tree nodes (never the epoch from storage and the tree from the cache); every method of the read-only wrapper hands its arguments unchanged to the Directory method of the same name and returns that method's answer (unit readonly_wrapper: proof and error types opaque). "
                  "BOUNDED (never counted as proved): identical epoch hashes and verified results across insertion parallelism, cache, restarts and runtimes for one history. Not decided: order / sub-batch independence of "
                  "the trie insertion (that is C01's canonical-trie statement), cache lifetimes and memory limits, the preload features, the read-only wrapper.",
         "trusted": ["tokio task / JoinSet models (a joined value is the value of a spawned future; join_next yields in completion order)", "R-SELF / R-SPAWN / R-REC / R-WHILELET desugarings; termination not proved",
